@@ -32,27 +32,50 @@ func checkStrayLtRewrite(p *Program, r *Report, rule string) {
 	}
 	short := strings.TrimPrefix(fnName(fn), pkgTemplate+".")
 	n := 0
-	for _, b := range fn.Blocks {
-		for _, in := range b.Instrs {
-			call, ok := in.(*ssa.Call)
-			if !ok {
-				continue
+	// the rewriter itself and the helpers of the package it calls (the loop may have been extracted)
+	scope := []*ssa.Function{fn}
+	for i := 0; i < len(scope) && len(scope) < 10; i++ {
+		for _, b := range scope[i].Blocks {
+			for _, in := range b.Instrs {
+				if c, ok := in.(*ssa.Call); ok {
+					if g := staticCallee(c.Common()); g != nil && g.Pkg == fn.Pkg && g.Blocks != nil && !strings.HasPrefix(g.Name(), "escape") || g != nil && g.Pkg == fn.Pkg && g.Blocks != nil && g.Signature.Recv() == nil {
+						dup := false
+						for _, h := range scope {
+							if h == g {
+								dup = true
+							}
+						}
+						if !dup && i == 0 {
+							scope = append(scope, g)
+						}
+					}
+				}
 			}
-			g := staticCallee(call.Common())
-			if g == nil {
-				continue
+		}
+	}
+	for _, fn := range scope {
+		for _, b := range fn.Blocks {
+			for _, in := range b.Instrs {
+				call, ok := in.(*ssa.Call)
+				if !ok {
+					continue
+				}
+				g := staticCallee(call.Common())
+				if g == nil {
+					continue
+				}
+				gn := fnName(g)
+				if gn != "(*bytes.Buffer).WriteString" && gn != "(*bytes.Buffer).Write" {
+					continue
+				}
+				if k, ok := constString(call.Common().Args[1]); !ok || k != "&lt;" {
+					continue
+				}
+				n++
+				cn := fmt.Sprintf("%s#lt-rewrite%d", short, n)
+				pos := p.Pos(call.Pos())
+				decideLtRewrite(p, r, rule, cn, pos, fn, b)
 			}
-			gn := fnName(g)
-			if gn != "(*bytes.Buffer).WriteString" && gn != "(*bytes.Buffer).Write" {
-				continue
-			}
-			if k, ok := constString(call.Common().Args[1]); !ok || k != "&lt;" {
-				continue
-			}
-			n++
-			cn := fmt.Sprintf("%s#lt-rewrite%d", short, n)
-			pos := p.Pos(call.Pos())
-			decideLtRewrite(p, r, rule, cn, pos, fn, b)
 		}
 	}
 	if n == 0 {
